@@ -3,7 +3,7 @@
    costs) is a function of grammar and input alone - no lookahead or debug
    parameter occurs in them - and the facts of the source the argument needs
    (clamp expression, cache distance threshold) are regenerated from yaep.c. *)
-From YV Require Import Prelude EarleySpec Recognizer Translate Dag Generated GeneratedChecks.
+From YV Require Import Prelude EarleySpec Recognizer Viable Lookahead Translate Dag Generated GeneratedChecks.
 Local Open Scope Z_scope.
 
 Theorem C09_level_clamped : forall l, setter_store_0 l = Z.max 0 (Z.min 2 l).
@@ -20,3 +20,35 @@ Proof.
   intros g axiom w b b' H H'. split; [congruence|]. now apply recognize_correct.
 Qed.
 Print Assumptions C09_verdict_determined.
+
+Local Close Scope Z_scope.
+(* Pruning by one token of lookahead does not change the verdict: whatever the
+   filter applied to scanned and completed items (static FIRST/FOLLOW sets at
+   level 1, dynamic contexts at level 2, with or without the `error' exemption),
+   as long as it keeps the items that lie on a derivation of the input, every
+   family of sets between the filtered and the unfiltered items contains the
+   final item exactly for the sentences. *)
+Theorem C09_verdict_under_lookahead : forall g axiom (keep : option nat -> item -> Prop),
+  (forall w p i, useful g axiom w p i -> keep (next w p) i) ->
+  forall Sets : list nat -> list nat -> item -> Prop,
+  (forall w p i, ItemF g axiom keep w p i -> Sets w p i) -> (forall w p i, Sets w p i -> Item g axiom p i) ->
+  forall w, (exists i, Sets w w i /\ final axiom i) <-> sentence g axiom w.
+Proof. intros g axiom keep Hk Sets Hlo Hhi. exact (proj1 (sandwich g axiom keep Hk Sets Hlo Hhi)). Qed.
+Print Assumptions C09_verdict_under_lookahead.
+
+(* The FIRST/FOLLOW filter of level 1 keeps those items, and so does every more
+   permissive filter (the fixpoint sets of create_first_follow_sets are
+   supersets of the exact FIRST/FOLLOW sets; items that `error' can follow are
+   kept as well). *)
+Theorem C09_static_filter_keeps_useful_items : forall g axiom (keep : option nat -> item -> Prop),
+  (forall nx i, keep_static g axiom nx i -> keep nx i) ->
+  forall w p i, useful g axiom w p i -> keep (next w p) i.
+Proof. exact keep_superset_ok. Qed.
+Print Assumptions C09_static_filter_keeps_useful_items.
+
+(* every useful item is in the filtered sets (so nothing a parse needs is pruned) *)
+Theorem C09_useful_items_survive : forall g axiom (keep : option nat -> item -> Prop),
+  (forall w p i, useful g axiom w p i -> keep (next w p) i) ->
+  forall w p i, useful g axiom w p i -> ItemF g axiom keep w p i.
+Proof. exact useful_ItemF. Qed.
+Print Assumptions C09_useful_items_survive.
